@@ -154,6 +154,8 @@ type FnExec struct {
 	callResults      map[string]specVar
 	callArgs         map[string][]specVar
 	calledCell       map[string]int
+	ensSkipped       map[*Clause]string
+	ensOK            map[*Clause]bool
 	guardOrd         map[ssa.Instruction]int
 	panickingVar     *Term
 	recoveredCell    int
@@ -941,6 +943,11 @@ func (e *FnExec) run() {
 	e.in[fn.Blocks[0]] = st
 	for _, b := range e.order {
 		e.execBlock(b)
+	}
+	for c, msg := range e.ensSkipped {
+		if !e.ensOK[c] {
+			e.errf("%s", msg)
+		}
 	}
 }
 
